@@ -607,7 +607,7 @@ class PlotAdapterBase:
 
         _yerr = self._get_total_error(error_contributions)
         if _yerr is not None:
-            _yerr /= self.model_y
+            _yerr /= np.abs(self.model_y)  # error bar lengths must not be negative
 
         # TODO: how to handle case when x and y error/model differ?
         return target_axes.errorbar(self.data_x, self.data_y / self.model_y, xerr=self.data_xerr, yerr=_yerr, **kwargs)
